@@ -111,8 +111,9 @@ PROPS['C14'] = {
 PROPS['C16'] = {
     'modules': ['OtterVerif.Props.C16'],
     'engines': [unit('mpsc', 120, 6000, chunk=10),
-                {'kind': 'unit', 'name': 'concmpsc', 'hcmd': 'conc-mpsc', 'dcmd': 'concmpsc', 'quick': 120, 'thorough': 6000, 'chunk': 10, 'args': []}],
-    'rule': 'UNIT-mpsc: sequential push/pop phases over initial/maximum capacity pairs (2..100 / 4..2048), every chunk switch and the full/empty boundaries; model must reproduce the five index words and chunk lengths, oracle = bounded FIFO. '
+                {'kind': 'unit', 'name': 'concmpsc', 'hcmd': 'conc-mpsc', 'dcmd': 'concmpsc', 'quick': 120, 'thorough': 6000, 'chunk': 10, 'args': []},
+                {'kind': 'unit', 'name': 'concpolicy', 'hcmd': 'conc-policy', 'dcmd': 'concpolicy', 'quick': 32, 'thorough': 2000, 'chunk': 4, 'args': []}],
+    'rule': 'CONC-policy (shared with C04/C05; every fourth script stalls the executor so that the write buffer fills up and writers hand their event over directly): no cache write is forgotten by the policy - table vs deques at quiescence. UNIT-mpsc: sequential push/pop phases over initial/maximum capacity pairs (2..100 / 4..2048), every chunk switch and the full/empty boundaries; model must reproduce the five index words and chunk lengths, oracle = bounded FIFO. '
             'CONC-mpsc: 1-12 real producers with (a) no consumer and offers that fit: no refusal allowed, (b) a consumer: delivery log exactly-once and in per-producer order. distinct = distinct transcripts with >= 10 lines',
     'trusted': UNIT_TRUST + CONC_TRUST,
 }
@@ -139,8 +140,9 @@ PROPS['C17'] = {
     'modules': ['OtterVerif.Props.C17'],
     'engines': [unit('ring', 120, 6000, chunk=10),
                 {'kind': 'unit', 'name': 'concring', 'hcmd': 'conc-ring', 'dcmd': 'concring', 'quick': 96, 'thorough': 4000, 'chunk': 8, 'args': []},
+                {'kind': 'unit', 'name': 'hookring', 'hcmd': 'hook-ring', 'dcmd': 'concring', 'quick': 200, 'thorough': 8000, 'chunk': 20, 'args': []},
                 seq(['mix', 'bound'], 120, 4000, any_fail)],
-    'rule': 'UNIT-ring: add/drain phases on one ring incl. full and empty boundaries. CONC-ring: 1-16 recorders racing one draining consumer on the striped buffer (maximum stripes 1..64): accepted vs delivered sets, capacity, quiescent delivery. '
+    'rule': 'HOOK-ring: the striped buffer with another goroutine\'s action (expansion, another recording, a drain) placed exactly at a producer\'s publication point through a hooked node: accepted = delivered. UNIT-ring: add/drain phases on one ring incl. full and empty boundaries. CONC-ring: 1-16 recorders racing one draining consumer on the striped buffer (maximum stripes 1..64): accepted vs delivered sets, capacity, quiescent delivery. '
             'SEQ (mix/bound): cache results are exact against Spec, which has no read buffer, with read-heavy scripts that saturate the buffer. distinct = distinct transcripts with >= 10 lines',
     'trusted': UNIT_TRUST + CONC_TRUST + SEQ_TRUST[1:],
 }
@@ -151,16 +153,21 @@ def conc(name, hcmd, quick, thorough, chunk, args=None):
 
 LIN_RULE = ('CONC-lin: 2-8 real goroutines, 1-5 keys, unique written values, every write stamped inside its critical section, automatic removals entered at the atomic deletion handler; '
             'the Lean judge Lin.checkKey decides linearizability of every key\'s history exactly, that each compute callback ran once, and (cache) hits+misses = counted lookups, (table) Size = keys = Range. distinct = distinct histories with >= 10 operations')
+RESIZE_RULE = ('; CONC-resize: 1-4 Computes whose remapping function is blocked inside the bucket critical section (present and absent keys, '
+               'empty and full chains) while 1-3 goroutines grow or shrink the table across the serial/parallel copy threshold (0..2000 entries): '
+               'the function runs exactly once, its write is readable afterwards, iteration/size/All agree with what was written, nobody hangs')
 PROPS['C02'] = {
     'modules': ['OtterVerif.Props.C02', 'OtterVerif.Props.C15'],
-    'engines': [conc('conclin', 'conc-lin', 240, 12000, 20, ['-target', 'cache']), conc('conclin', 'conc-lin', 120, 6000, 20, ['-target', 'table'])],
-    'rule': LIN_RULE, 'trusted': CONC_TRUST + ['Lin.checkKey (Lean executable) is the judge; the in-critical-section stamps come from user callbacks the cache invokes under the bucket lock'],
+    'engines': [conc('conclin', 'conc-lin', 240, 12000, 20, ['-target', 'cache']), conc('conclin', 'conc-lin', 120, 6000, 20, ['-target', 'table']),
+                conc('concresize', 'conc-resize', 120, 6000, 10)],
+    'rule': LIN_RULE + RESIZE_RULE, 'trusted': CONC_TRUST + ['Lin.checkKey (Lean executable) is the judge; the in-critical-section stamps come from user callbacks the cache invokes under the bucket lock'],
 }
 PROPS['C15'] = {
     'modules': ['OtterVerif.Props.C15'],
     'engines': [conc('conclin', 'conc-lin', 240, 12000, 20, ['-target', 'table']), conc('conclin', 'conc-lin', 120, 6000, 20, ['-target', 'cache']),
+                conc('concresize', 'conc-resize', 120, 6000, 10),
                 seq(['mix', 'bound'], 120, 4000, any_fail)],
-    'rule': LIN_RULE + '; SEQ drives the table through the cache with InitialCapacity 1..1000 (iteration = exactly the live entries, each once)',
+    'rule': LIN_RULE + RESIZE_RULE + '; SEQ drives the table through the cache with InitialCapacity 1..1000 (iteration = exactly the live entries, each once)',
     'trusted': CONC_TRUST + SEQ_TRUST[1:],
 }
 PROPS['C08'] = {
